@@ -262,25 +262,8 @@ def run(ctx: Ctx, tier: str) -> Result:
                                      "or a tracepoint without it cannot be built" % (norm(tg_.slice), "when " + " and ".join(("" if pol else "not ") + c for c, pol in conds) if conds else "unconditionally")))
 
     # ---------------- KEEP: tracepoints on the same location keep all of their actions (rules shared with C03)
-    from . import c03
-    from .. import report as _report
-    res.rule("C11.KEEP", "same-location tracepoints keep all their actions (merge key, merge, every matching trigger visited)")
-    from ..index import AnalysisError
-    try:
-        sub = c03.run(ctx, tier)
-    except AnalysisError:
-        sub = _report.CURRENT           # findings established before the anchor vanished are kept
-        if sub is None or sub.pid != "C03" or not sub.findings:
-            _report.CURRENT = res
-            raise
-    _report.CURRENT = res
-    for rid in ("C03.LOOP", "C03.MERGE"):
-        r_ = sub.rules.get(rid, {"obligations": 0, "discharged": 0})
-        for _ in range(r_["discharged"]):
-            res.ok("C11.KEEP")
-    for f_ in sub.findings:
-        if f_.rule in ("C03.LOOP", "C03.MERGE"):
-            res.fail(Finding("C11.KEEP", f_.func, f_.construct, f_.loc, f_.msg, f_.path))
+    from .common import borrow as _borrow
+    _borrow(ctx, res, tier, "c03", ("C03.LOOP", "C03.MERGE"), "C11.KEEP", "same-location tracepoints keep all their actions (merge key, merge, every matching trigger visited)")
 
     # every tracepoint of the response is converted
     crf = p.func("deep.grpc.convert_response")
@@ -395,6 +378,8 @@ def run(ctx: Ctx, tier: str) -> Result:
     from .common import borrow
     borrow(ctx, res, tier, "c17", ("C17.FAN",), "C11.METRIC", "one report per metric definition (every definition x every processor)")
     borrow(ctx, res, tier, "c04", ("C04.INT",), "C11.LIMITS", "fire_count / fire_period are read as integers (-1 honoured), the default only for unparsable text")
+    borrow(ctx, res, tier, "c03", ("C03.ORIG", "C03.FUNC", "C03.LINE"), "C11.PLACE", "an installed action is placed: the event's file, line and plain function name are what its location is compared with")
+    borrow(ctx, res, tier, "c13", ("C13.HANDLE",), "C11.EACH", "every registration is a tracepoint of its own (a second registration is never answered with the first one's)")
     borrow(ctx, res, tier, "c13", ("C13.ADD",), "C11.PUBLISH", "what is published is the service's tracepoints plus the registered ones, each once")
     borrow(ctx, res, tier, "c04", ("C04.STATE",), "C11.BUDGET", "the tracepoint's own fire count / period are advanced by every started collection")
     return res
